@@ -197,18 +197,27 @@ func (b *c02Builder) list(n *node, rep int) interface{} {
 	allStruct := true
 	for i, e := range l {
 		items[i] = b.build(e)
-		if _, ok := items[i].(*C02Obj); !ok {
+		if _, ok := items[i].(*C02Obj); !ok && items[i] != nil {
 			allStruct = false
 		}
 	}
 	if b.listKind == 1 {
+		// the list representations that can hold a typed nil pointer do: a
+		// null element of the neutral graph is a nil *C02Obj / nil *c02Res there
 		switch {
 		case rep == repResolver:
+			for i := range items {
+				if items[i] == nil {
+					items[i] = (*c02Res)(nil)
+				}
+			}
 			return &c02List{items: items}
 		case rep == repStruct && allStruct:
 			typed := make([]*C02Obj, len(items))
 			for i, e := range items {
-				typed[i] = e.(*C02Obj)
+				if e != nil {
+					typed[i] = e.(*C02Obj)
+				}
 			}
 			return typed
 		}
